@@ -99,7 +99,8 @@ def kt_ob(name, spec, family='', bounds='', timeout=120, cost=5, known=None):
                 bad0 = bad
                 bad = lambda l: z3.And(bad0(l), *[z3.Not(r) for r in regs])      # noqa: E731
                 res['carved'] = kf_active
-            verdict, model, solver = K.decide(leaves, bad, timeout_ms=int(timeout * 1000))
+            import os
+            verdict, model, solver = K.decide(leaves, bad, timeout_ms=int(timeout * 1000 * float(os.environ.get('VERIF_TIMEOUT_FACTOR', '3'))))
             res['smt2_chars'] = len(solver.to_smt2())
             if verdict == 'unsat':
                 res['status'] = 'CONFIRMED'
